@@ -389,7 +389,7 @@ def wal_confinement(ctx, p):
     mm = sorted(F.direct_callers_of('re:memmap2::MmapMut as std::ops::DerefMut>::deref_mut', 're:MmapMut.*::as_mut_ptr$', 're:MmapMut as std::convert::AsMut'))
     allowed = {'index::IndexTable::write_stats', 'file::madvise_random'}
     ctx.ob(p + 'f mmap-derefmut-confined', 'K4-confinement', ','.join(mm), 'safe mutable access to a mapping (DerefMut/as_mut_ptr) is used only for the statistics area and madvise',
-           set(mm) <= allowed, 'unexpected: %s' % sorted(set(mm) - allowed))
+           all(lib.confined_through(F, x, allowed) for x in mm), 'unexpected: %s' % sorted(x for x in mm if not lib.confined_through(F, x, allowed)))
     lib.callers_confined(ctx, p + 'g drop_file-callers', F, ['index::IndexTable::drop_file', 'ref_count::RefCountTable::drop_file'],
                          {'column::HashColumn::drop_index', 'column::HashColumn::drop_ref_count'},
                          'index / ref-count files are unlinked only by drop_index / drop_ref_count', required=['column::HashColumn::drop_index', 'column::HashColumn::drop_ref_count'])
@@ -539,10 +539,10 @@ def file_reads_shadowed(ctx, p):
     ctx.ob(p + 'c raw-read-sites', 'anchor', '-', 'the survey found the runtime file-read sites (>= 12 on the pinned tree)', n >= 12, '%d sites' % n)
     # who may touch a mapping at all
     mm = sorted(F.direct_callers_of('re:memmap2::MmapMut as std::ops::Deref>::deref$'))
-    allowed = {'file::TableFile::grow', 'file::TableFile::read_at', 'file::TableFile::slice_at::{closure#0}', 'file::TableFile::write_at', 'file::madvise_random',
+    allowed = {'file::TableFile::grow', 'file::TableFile::flush', 'file::TableFile::read_at', 'file::TableFile::slice_at::{closure#0}', 'file::TableFile::write_at', 'file::madvise_random',
                'index::IndexTable::chunk_at', 'index::IndexTable::chunk_entries_at', 'index::IndexTable::enact_plan', 'index::IndexTable::flush', 'index::IndexTable::load_stats',
                'ref_count::RefCountTable::chunk_at', 'ref_count::RefCountTable::enact_plan', 'ref_count::RefCountTable::flush'}
-    ctx.ob(p + 'd mapping-access-confined', 'K4-confinement', ','.join(mm), 'a memory mapping is dereferenced only in the raw reader / applier / flush primitives', set(mm) <= allowed, 'unexpected: %s' % sorted(set(mm) - allowed))
+    ctx.ob(p + 'd mapping-access-confined', 'K4-confinement', ','.join(mm), 'a memory mapping is dereferenced only in the raw reader / applier / flush primitives', all(lib.confined_through(F, x, allowed) for x in mm), 'unexpected: %s' % sorted(x for x in mm if not lib.confined_through(F, x, allowed)))
     # the startup-only unshadowed readers are called only from startup code
     lib.callers_confined(ctx, p + 'e table_entries-startup-only', F, ['ref_count::RefCountTable::table_entries'], {'column::HashColumn::init_table_data'}, 'RefCountTable::table_entries (unshadowed) is used only by init_table_data')
     lib.callers_confined(ctx, p + 'f refresh_metadata-startup-only', F, ['column::Column::refresh_metadata'], {'db::DbInner::replay_all_logs'}, 'refresh_metadata (unshadowed header read) is used only at the end of replay', required=['db::DbInner::replay_all_logs'])
